@@ -183,6 +183,16 @@ my_fileset_reload(struct my_fileset *fs)
 		ubuf_rstrip(u, '\n');
 		fname = ubuf_cstr(u);
 		if (path_exists(fname)) {
+			/* a file named more than once is one entry, with one loaded object */
+			bool listed = false;
+			for (size_t i = 0; i < entry_vec_size(new_entries); i++) {
+				if (strcmp(entry_vec_value(new_entries, i)->fname, fname) == 0) {
+					listed = true;
+					break;
+				}
+			}
+			if (listed)
+				continue;
 			entptr = fetch_entry(fs->entries, fname);
 			if (entptr == NULL) {
 				ent = my_calloc(1, sizeof(*ent));
